@@ -2,7 +2,7 @@
 from ..rules import model
 
 EXPLANATION = (
-    "Static analysis of Problem.split: the number of parts is provably bounded by the domain size before the loop (clamp), each part is a deep copy and the only store goes through the copy to shr_domains_lst[var_idx], consecutive parts are adjacent (next min = this max + 1, on every path of the size/remainder branch), the first part starts at the domain minimum. The identity 'last part ends at the maximum' is arithmetic, declared undecided."
+    "Static analysis of Problem.split: the number of parts is provably bounded by the domain size before the loop (clamp), each part is a deep copy and the only store goes through the copy to shr_domains_lst[var_idx], consecutive parts are adjacent (next min = this max + 1, on every path of the size/remainder branch), the first part starts at the domain minimum. The identity 'last part ends at the maximum' is arithmetic, declared undecided. Now also decided: every return path returns a fresh list holding only deep copies made by the loop; the part sizes are s//k + [i < s%k] (threshold exact, off-by-constant is a violation), which by the lemma sum_{i<k}(q + [i<r]) = kq + r (lemmas/SplitSizes.lean) makes the last part end at the domain maximum."
 )
 
 
